@@ -178,6 +178,9 @@ def run(ck):
     driver = ck.lean_exe("c27driver", "TfelVerif/C27/Driver.lean")
     res = ck.lean(PROPS, PROPS)
     ck.lean_violations(res)
+    if ck.tier == "thorough" and res.ok:
+        for m_, log in ck.leanchecker(PROPS):
+            ck.violation("leanchecker:" + m_, "leanchecker rejects " + m_, {"log": log}, False)
 
     # ------------------------------------------------------------------ runtime requests
     reqs = []
